@@ -6,7 +6,7 @@ from ..core import Fail
 
 PID = "C07"
 RULE = ("pools of shapes and closed curves: for each base shape its representations (rotated start vertex, 1-2 inserted "
-        "collinear vertices, int/Fraction/float re-encodings, permuted holes/components, split-and-cleaned, copies) and "
+        "collinear vertices (also at different places with equal segment counts), int/Fraction/float re-encodings, permuted holes/components, split-and-cleaned, copies) and "
         "near misses (one vertex moved by 1e-3, same area elsewhere, reversed orientation, other kind); X == Y, Y == X, "
         "X != Y on all pairs of a pool, transitivity on triples; mixed-degree curves (circle-vs-polygon results) must "
         "return a bool; oracle = exact region equality (slab samples + orientation); non-trivial = both operands are "
@@ -38,6 +38,9 @@ def _variants(rng, s):
     out.append(("rotated", on_curves(rot), "frac", True))
     out.append(("inserted", on_curves(ins), "frac", True))
     out.append(("inserted2", on_curves(lambda j: ins(ins(j))), "frac", True))
+    # same number of segments, redundant vertices at other places
+    out.append(("inserted_b", on_curves(ins), "frac", True))
+    out.append(("inserted2_b", on_curves(lambda j: ins(ins(j))), "frac", True))
     if all(x.denominator == 1 for j in O.shape_jordans(s) for sg in j for p in sg for x in p):
         out.append(("int", s, "int", True))
     out.append(("float", s, "float", True))
@@ -76,7 +79,9 @@ def cases(ctx):
         idx = list(range(len(vs)))
         pairs = [(a, b) for a in idx for b in idx if a <= b]
         rng.shuffle(pairs)
-        for a, b in pairs[: ctx.n(14, 60)]:
+        lab = {v[0]: k for k, v in enumerate(vs)}
+        forced = [(lab["inserted"], lab["inserted_b"]), (lab["inserted_b"], lab["inserted"]), (lab["inserted2"], lab["inserted2_b"])]
+        for a, b in forced + pairs[: ctx.n(14, 60)]:
             yield {"x": vs[a][1], "xn": vs[a][2], "xl": vs[a][0], "y": vs[b][1], "yn": vs[b][2], "yl": vs[b][0],
                    "same": vs[a][3] and vs[b][3] or a == b}
         # other kind
